@@ -9,6 +9,7 @@
 import Snmp.Lemmas.BerDecode
 import Snmp.Lemmas.BerInt
 import Snmp.Lemmas.BerTree
+import Snmp.Lemmas.GlueLemmas
 namespace Snmp.Props.C06
 open Snmp Snmp.Ber
 
@@ -177,6 +178,22 @@ theorem C06_datagram_decode (e : Enc) (h : e.WF) (fuel depth : Nat) (hw : e.widt
   unfold decodeTree
   simp only [hdec, bind, Except.bind]
   exact hread
+
+/-- **A whole response message reaches the operation logic as the record the agent wrote.**
+    `Glue.WritesMsg e m cls`: `e` is a community message — wrapper, version, community, a PDU of class
+    `cls` with request id, error fields and bindings `m.pdu` — in which every TLV has its own definite
+    length form and every value TLV is one the specification reads as the value in `m`.  Then the
+    client's path — x690 mirror (`decodeTree`), `proto_version, community, pdu = message`,
+    `PDU.decode_raw`, `VarBind(oid, value)` per binding (`Glue.msgOfBytes`) — yields exactly `m` and
+    `cls`; hence every result the operation model (`Snmp.Ops`, C04/C07/C08) computes from the record
+    is the result for the octets on the wire. -/
+theorem C06_message_readback (e : Enc) (m : Ops.RespMsg) (cls : String) (h : Glue.WritesMsg e m cls)
+    (fuel depth : Nat) (hw : e.width ≤ fuel) (hd : e.depth ≤ depth) :
+    Glue.msgOfBytes e.bytes fuel depth = some (m, cls) := by
+  obtain ⟨hwf, tr, htree, hmsg⟩ := Glue.writesMsg_read h
+  unfold Glue.msgOfBytes
+  rw [C06_datagram_decode e hwf fuel depth hw hd, htree]
+  exact hmsg
 
 /-- the OID part of the value statement without the domain restriction of `InDomain` -/
 def C06_oid_statement : Prop :=
